@@ -15,6 +15,10 @@
 package bufcli
 
 import (
+	"errors"
+	"net/http"
+	"strings"
+
 	"connectrpc.com/connect"
 	otelconnect "connectrpc.com/otelconnect"
 	"github.com/bufbuild/buf/private/buf/bufapp"
@@ -69,6 +73,7 @@ func newConnectClientConfigWithOptions(container appext.Container, opts ...conne
 		return nil, err
 	}
 	client := httpclient.NewClient(config.TLS)
+	client.CheckRedirect = checkRedirect
 	options := []connectclient.ConfigOption{
 		connectclient.WithAddressMapper(func(address string) string {
 			if config.TLS == nil {
@@ -87,6 +92,22 @@ func newConnectClientConfigWithOptions(container appext.Container, opts ...conne
 		),
 	}
 	return connectclient.NewConfig(client, append(options, opts...)...), nil
+}
+
+// checkRedirect is the redirect policy of registry clients.
+//
+// The Authorization header is set for the host the client was made for. net/http carries
+// it over to a redirect target that is a subdomain of that host, which is a different host
+// that the token was not configured for, so it is removed whenever a redirect leaves the
+// original host.
+func checkRedirect(req *http.Request, via []*http.Request) error {
+	if len(via) >= 10 {
+		return errors.New("stopped after 10 redirects")
+	}
+	if !strings.EqualFold(req.URL.Host, via[0].URL.Host) {
+		req.Header.Del("Authorization")
+	}
+	return nil
 }
 
 // newConfig creates a new Config.
